@@ -269,16 +269,26 @@ func GenChain(r *crsgen.R, fwd func(s *Scenario) []*[2]float64) []Scenario {
 	var greenwich [][2]float64
 	nearEquator := false
 	for k := 0; k < 4; k++ {
-		lon, lat := d.Pos(r)
-		lg := lon + d.PMDeg - g.PMDeg
-		// keep every longitude (own meridian, partner's meridian, Greenwich) inside
-		// (-180, 180): the port rejects out-of-range longitudes in Mercator where
-		// proj4js silently wraps, and a datum shift moves longitudes slightly
-		for tries := 0; tries < 100 && (math.Abs(lon) > 179.5 || math.Abs(lg) > 179.5 || math.Abs(lon+d.PMDeg) > 179.5); tries++ {
-			lon, lat = d.Pos(r)
-			lg = lon + d.PMDeg - g.PMDeg
+		wrap := func(v float64) float64 {
+			if v > 180 {
+				return v - 360
+			}
+			if v <= -180 {
+				return v + 360
+			}
+			return v
 		}
-		if math.Abs(lon) > 179.5 || math.Abs(lg) > 179.5 || math.Abs(lon+d.PMDeg) > 179.5 {
+		lon, lat := d.Pos(r)
+		lg := wrap(lon + d.PMDeg - g.PMDeg)
+		// the longitude is given inside (-180, 180) of the meridian frame it is stated in (own
+		// meridian for the inverse, partner's meridian for the forward step) and half a degree
+		// away from the antimeridian, because a datum shift moves longitudes slightly; the
+		// difference of two prime meridians may carry it across the antimeridian of the other frame
+		for tries := 0; tries < 100 && (math.Abs(lon) > 179.5 || math.Abs(lg) > 179.5); tries++ {
+			lon, lat = d.Pos(r)
+			lg = wrap(lon + d.PMDeg - g.PMDeg)
+		}
+		if math.Abs(lon) > 179.5 || math.Abs(lg) > 179.5 {
 			continue
 		}
 		if math.Abs(lat) < 1e-3 {
@@ -288,7 +298,7 @@ func GenChain(r *crsgen.R, fwd func(s *Scenario) []*[2]float64) []Scenario {
 			nearEquator = true
 		}
 		pts = append(pts, [2]float64{lg, lat})
-		greenwich = append(greenwich, [2]float64{lon + d.PMDeg, lat})
+		greenwich = append(greenwich, [2]float64{wrap(lon + d.PMDeg), lat})
 	}
 	if len(pts) == 0 {
 		return nil
